@@ -34,9 +34,7 @@ EXPLANATION = (
     "guard, and is guarded by a due test against the head's time; Q4 the blocking wait in _send is dominated by the "
     "empty branches of all three event queues, by a failed find_key() and is unreachable from a due scheduled event; "
     "Q5 wake-up protocol: append before os.write in the thread-safe callback, read end registered in readers, select "
-    "reads stdin + wake-up fd + readers, interrupting queue re-tested after a trigger wake; Q6 paste loop: threshold "
-    "test, refill while fewer than MAX_KEYPRESS_SIZE bytes are buffered, events appended in find_key order, "
-    "READ_SIZE >= MAX_KEYPRESS_SIZE; Q7 the wait reports 'timed out, nothing' only when select returned nothing; "
+    "reads stdin + wake-up fd + readers, interrupting queue re-tested after a trigger wake; Q6 READ_SIZE >= MAX_KEYPRESS_SIZE (the paste loop itself is decided by the interpreted histories: H1, H6); Q7 the wait reports 'timed out, nothing' only when select returned nothing; "
     "Q8 bytes enter the buffer one by one, all of them, in order; K7 find_key moves bytes pop(0)->append in one "
     "statement, full= is an emptiness test of the same buffer, a key ends the loop, leftovers raise; (the timeout a wait receives is decided by the interpreted histories below: H5)  "
     "scheduled the wait receives the caller's timeout unchanged."
@@ -725,123 +723,15 @@ def rule_k7(src, rep, counts):
 
 
 def rule_q6(src, rep, counts):
-    f = src.func("input", "Input._send")
-    from ..fold import new_folder
-    fold = new_folder(src)
-    kf, kf_names = keyfinder(src)
-    maxk = fold.const("events", "MAX_KEYPRESS_SIZE", int)
+    """READ_SIZE must be at least MAX_KEYPRESS_SIZE (a keypress must fit into one read).  The paste loop itself - threshold test,
+    refill while a key may be incomplete, keys appended in order, paste returned when the buffer is exhausted - is decided by the
+    interpreted request histories (H1 / H6: bursts above and below every threshold, keys cut by the read boundary)."""
+    from ..consteval import Folder
+    fold = Folder(src)
     read_size = fold.const("input", "READ_SIZE", int)
-    rep.extracted["MAX_KEYPRESS_SIZE"] = maxk
-    rep.extracted["READ_SIZE"] = read_size
+    maxk = fold.const("events", "MAX_KEYPRESS_SIZE", int)
     rep.ob("Q6-read-size-adequate", "curtsies/input.py:0", "input:<module>", "READ_SIZE=%d >= MAX_KEYPRESS_SIZE=%d" % (read_size, maxk),
-           read_size >= maxk, "one read may not hold a whole keypress")
-    pastes = [n for n in f.own_nodes() if isinstance(n, (ast.Assign, ast.AnnAssign)) and isinstance(n.value, ast.Call) and
-              unparse(n.value.func).endswith("PasteEvent")]
-    if len(pastes) != 1:
-        raise AnalysisError("expected one PasteEvent() construction in _send, found %d" % len(pastes))
-    pv = unparse(pastes[0].targets[0])
-    g = lexical_guard(f.module, pastes[0], f.node)
-    # num_bytes is what the read returned
-    nb = single_defs(f.node)
-    want = {G("self.paste_threshold is not None")}
-    cmp_ok = False
-    for t, pol in g:
-        if not pol:
-            continue
-        try:
-            e = ast.parse(t, mode="eval").body
-        except SyntaxError:
-            continue
-        # canonical form of `num_bytes > self.paste_threshold` is `self.paste_threshold < num_bytes`
-        if isinstance(e, ast.Compare) and len(e.ops) == 1 and isinstance(e.ops[0], ast.Lt) and \
-                unparse(e.left) == "self.paste_threshold" and isinstance(e.comparators[0], ast.Name):
-            d = nb.get(e.comparators[0].id)
-            if d is not None and isinstance(d, ast.Call) and unparse(d.func) == "self._nonblocking_read":
-                cmp_ok = True
-    rep.ob("Q6-paste-threshold-test", f.where(pastes[0]), f.scope, " and ".join(("" if p else "not ") + t for t, p in g),
-           want <= set(g) and cmp_ok,
-           "a paste event is built only when paste_threshold is not None and the number of bytes just read exceeds it")
-    loop = f.module.enclosing(pastes[0], (ast.If,))
-    loops = [n for n in ast.walk(loop) if isinstance(n, ast.While)] if loop is not None else []
-    if len(loops) != 1:
-        raise AnalysisError("paste branch: expected one while loop")
-    lp = loops[0]
-    body = lp.body
-    # refill
-    refill = None
-    for i, s in enumerate(body):
-        if isinstance(s, ast.If) and any(isinstance(x, ast.Call) and unparse(x.func) == "self._nonblocking_read" for x in ast.walk(s)):
-            refill = (i, s)
-    fk = [i for i, s in enumerate(body) if isinstance(s, ast.Assign) and isinstance(s.value, ast.Call) and unparse(s.value.func) in kf_names]
-    ok = False
-    why = "the paste loop has no refill of the byte buffer before find_key()"
-    if refill and fk and refill[0] < fk[0]:
-        t = refill[1].test
-        why = "refill test is `%s`" % unparse(t)
-        cj = conjuncts(t)
-        if len(cj) == 1:
-            try:
-                e = ast.parse(cj[0][0], mode="eval").body
-            except SyntaxError:
-                e = None
-            L = "len(self.unprocessed_bytes)"
-            bound = None
-            if isinstance(e, ast.Compare) and len(e.ops) == 1 and isinstance(e.ops[0], ast.Lt):
-                lt, rt = unparse(e.left), unparse(e.comparators[0])
-                if lt == L and cj[0][1]:                       # len < K
-                    k = fold.try_expr(e.comparators[0], dict(fold.module("input")))
-                    bound = k if isinstance(k, int) else None
-                elif rt == L and not cj[0][1]:                 # not (K < len)  ==  len <= K
-                    k = fold.try_expr(e.left, dict(fold.module("input")))
-                    bound = k + 1 if isinstance(k, int) else None
-            if bound is not None:
-                ok = bound >= maxk
-                why += " (refills below %s buffered bytes; a keypress needs up to %d)" % (bound, maxk)
-    rep.ob("Q6-refill-before-buffer-runs-out", f.where(refill[1]) if refill else f.where(lp), f.scope,
-           unparse(refill[1].test) if refill else "<none>", ok,
-           "inside a paste the buffer must be topped up while fewer than MAX_KEYPRESS_SIZE bytes remain, otherwise a keypress "
-           "split by the read size is decided on its prefix with full=True; " + why)
-    # append in order / return paste when exhausted
-    ok_app = ok_ret = False
-    if fk:
-        var = body[fk[0]].targets[0].id
-        for s in body[fk[0] + 1:]:
-            if isinstance(s, ast.If):
-                cj = conjuncts(s.test)
-                if len(cj) != 1 or cj[0][0] != "%s is None" % var:
-                    continue
-                none_branch, some_branch = (s.body, s.orelse) if cj[0][1] else (s.orelse, s.body)
-                ok_ret = any(isinstance(x, ast.Return) and unparse(x.value) == pv for x in none_branch)
-                ok_app = any(isinstance(x, ast.Expr) and unparse(x.value) == "%s.events.append(%s)" % (pv, var) for x in some_branch)
-    rep.ob("Q6-paste-keys-appended-in-order", f.where(lp), f.scope, "%s.events.append(e)" % pv, ok_app,
-           "every key found during a paste must be appended to the paste event in find_key order")
-    rep.ob("Q6-paste-returned-when-exhausted", f.where(lp), f.scope, "if e is None: return %s" % pv, ok_ret,
-           "the paste event must be returned when no further key can be found")
-    # non-paste branch returns the key
-    # send wrappers
-    s = src.func("input", "Input.send")
-    rets = [r for r in s.own_nodes() if isinstance(r, ast.Return)]
-    ok = bool(rets) and all(unparse(r.value) == "self._send(%s)" % s.params()[1] for r in rets)
-    paths_ok = ok and len(rets) >= 1
-    rep.ob("Q9-send-delegates", s.where(), s.scope, "return self._send(timeout)", paths_ok,
-           "every path of send() must return the result of _send(timeout)")
-    nx = src.func("input", "Input.__next__")
-    rets = [r for r in nx.own_nodes() if isinstance(r, ast.Return)]
-    rep.ob("Q9-next-delegates", nx.where(), nx.scope, "return self.send(None)",
-           len(rets) == 1 and unparse(rets[0].value) == "self.send(None)", "__next__ must block until an event arrives")
-    # event_trigger / scheduled trigger callbacks append exactly one event
-    for qn, q in (("Input.event_trigger", "queued_events"), ("Input.scheduled_event_trigger", "queued_scheduled_events")):
-        tf = src.func("input", qn)
-        cbs = [g2 for (m, q2), g2 in src.funcs.items() if m == "input" and g2.outer is tf]
-        ok = False
-        if len(cbs) == 1:
-            apps = [n for n in cbs[0].own_nodes() if isinstance(n, ast.Call) and isinstance(n.func, ast.Attribute) and
-                    n.func.attr == "append" and _queue_of(n.func.value) == q]
-            rets = [r for r in tf.own_nodes() if isinstance(r, ast.Return)]
-            ok = len(apps) == 1 and not lexical_guard(cbs[0].module, apps[0], cbs[0].node) and len(rets) == 1 and \
-                unparse(rets[0].value) == cbs[0].name
-        rep.ob("Q9-trigger-appends-one-event", tf.where(), tf.scope, "%s.append(...)" % q, ok,
-               "the callback returned by %s must append exactly one event, unconditionally" % qn)
+           read_size >= maxk, "a keypress may need %d bytes, one read delivers at most %d" % (maxk, read_size))
 
 
 def run_rules(src, rep):
